@@ -45,6 +45,7 @@ func readAll(root *rootSpec, src io.Reader, maxReads int) (o readOutcome) {
 // that are completely contained in the prefix, then a non-nil error (io.EOF exactly at a
 // frame boundary), and never panics.
 func runCutsMode() {
+	defer manyNamesFrameCase("C05")
 	r := rng.FromEnv(105)
 	n := scale(64)
 	for i := 0; i < n; i++ {
